@@ -199,30 +199,36 @@ def collStep (rs : Int) (c : Coll) (k : Bytes) : Coll :=
 /-- the candidates collected when the map is enumerated in the order `order` -/
 def collect (rs : Int) (order : List Bytes) : List Bytes := (order.foldl (collStep rs) {}).items
 
-def sizesAsc (ks : List Bytes) : List Int := (ks.map elementSize).mergeSort (· ≤ ·)
-def sumTake (n : Nat) (l : List Int) : Int := (l.take n).sum
+/-- total `elementSizeMem` of a list of keys -/
+def szSum (l : List Bytes) : Int := (l.map elementSize).sum
 
-/-- first index m (1-based) at which the running sum of `l` reaches `rs`, if any -/
-def firstReach (rs : Int) : List Int → Int → Nat → Option Nat
+def sizeLe (a b : Bytes) : Bool := decide (elementSize a ≤ elementSize b)
+
+/-- the keys ordered by ascending element size -/
+def sortBySize (l : List Bytes) : List Bytes := l.mergeSort sizeLe
+
+/-- how many leading keys of the list are needed for the running size (starting from `acc`, after `i` keys) to reach `rs` -/
+def reach (rs : Int) : List Bytes → Int → Nat → Option Nat
   | [], _, _ => none
-  | x :: xs, acc, i => if acc + x ≥ rs then some (i + 1) else firstReach rs xs (acc + x) (i + 1)
+  | k :: ks, acc, i => if acc + elementSize k ≥ rs then some (i + 1) else reach rs ks (acc + elementSize k) (i + 1)
 
 /-- Can the collection loop over SOME enumeration of `keys` end with exactly the set `cands`?
     (`cands ⊆ keys`, no duplicates — checked separately.)  With m = number of items "barely enough" to reach `rs`
-    the loop stops after 2·m items (after 1 item when rs ≤ 0), or runs through the whole map. -/
+    the loop stops after 2·m items (after 1 item when rs ≤ 0), or runs through the whole map.
+    Proved exact in SH/Lemmas/C21Order.lean (`legalCount_sound`, `legalCount_complete`). -/
 def legalCount (rs : Int) (keys cands : List Bytes) : Bool :=
   let n := cands.length
-  let asc := sizesAsc cands
+  let a := sortBySize cands
   if n = keys.length then
     -- no early stop for some order: the ascending order reaches `rs` as late as possible
-    match firstReach rs asc 0 0 with
+    match reach rs a 0 0 with
     | none => true
     | some m => (if rs ≤ 0 then n ≤ 1 else n ≤ 2 * m)
   else if rs ≤ 0 then n = 1
   else
     n % 2 = 0 && n > 0 &&
-    (let m := n / 2
-     sumTake (m - 1) asc < rs && rs ≤ sumTake m asc.reverse)
+      -- the n/2 − 1 smallest do not reach `rs`, the n/2 largest do
+      (szSum (a.take (n / 2 - 1)) < rs && rs ≤ szSum (a.drop (n - n / 2)))
 
 def bytesLt : Bytes → Bytes → Bool
   | [], [] => false
